@@ -191,7 +191,7 @@ def run(rep, tier, seed, replay):
     if os.path.isdir(os.path.join(core.HARNESS, 'server', 'c06')) and not os.environ.get('VERIF_C12_NOSERVER'):
         # real Servers cost ~50 ms per behaviour: a systematic sample of the cover + simulated behaviours
         sets['server'] = (behaviours[:n_graph][::40] + behaviours[n_graph:][:100] if quick
-                          else behaviours[:n_graph][::12] + behaviours[n_graph:][:3000])
+                          else behaviours[:n_graph][::20] + behaviours[n_graph:][:2000])
         rep.cov['server_binding_behaviours'] = len(sets['server'])
     with core.scratch('c12') as d:
         trs = run_bindings(rep, sets, d)
